@@ -2,6 +2,7 @@
 import ast
 
 from ..core import astutil as A
+from ..core import match as M
 from ..core import cfg as CFG
 from ..core.model import dotted
 
@@ -26,15 +27,14 @@ def run(ctx):
     trues = [r for r in rets if A.is_const(r.value, True)]
     ctx.check("R1", ve, len(falses) == 3 and len(trues) == 2, f"exits:{len(falses)}F/{len(trues)}T", "three rejections (ebuild checksum, missing INHERIT, stale eclasses), two acceptances (no eclasses recorded, eclasses rebuilt)")
     t = A.unparse(ve.node)
-    ctx.check("R1", ve, f"chf_hash = {item}.get(self._chf_key)" in t and "if chf_hash is None or chf_hash != getattr(ebuild_hash_item, self.chf_type, None):\n        return False" in t, "ebuild-checksum-must-match", "a missing or different ebuild checksum rejects the entry")
+    ctx.check("R1", ve, M.has(ve.node, f"$h = {item}.get(self._chf_key)\nif $h is None or $h != getattr(ebuild_hash_item, self.chf_type, None):\n    return False"), "ebuild-checksum-must-match", "a missing or different ebuild checksum rejects the entry")
     inh = [n for n in A.body_walk(ve.node) if isinstance(n, ast.If) and "'INHERIT'" in A.unparse(n.test)]
     ok = len(inh) == 1 and A.unparse(inh[0].test) == f"{item}.get('INHERIT') is None" and A.is_const(inh[0].body[0].value if isinstance(inh[0].body[0], ast.Return) else None, False)
     ctx.check("R1", ve, ok, f"missing-inherit-rejects:{A.unparse(inh[0].test)[:60] if inh else ''}", "an entry recording eclasses but lacking INHERIT is rejected, whatever the cache's mode",
               f"the missing-INHERIT rejection is conditional on `{A.unparse(inh[0].test) if inh else '?'}`: an old-format entry is used as is (empty inherit list, no regeneration) when the extra condition is false", node=inh[0] if inh else ve.node)
-    ctx.check("R1", ve, "update = eclass_db.rebuild_cache_entry(eclass_data)" in t and "if update is None:\n        return False" in t and f"{item}['_eclasses_'] = update" in t, "stale-eclasses-reject", "a failed eclass rebuild rejects; a successful one replaces the recorded data by the live eclass objects")
-    ctx.check("R1", ve, f"eclass_data = {item}.get('_eclasses_')" in t and "if eclass_data is None:\n        return True" in t, "no-eclasses-accepts", "an entry recording no eclasses is accepted on the ebuild checksum alone")
-    order = [t.find("return False"), t.find("if eclass_data is None"), t.find("'INHERIT'"), t.find("rebuild_cache_entry")]
-    ctx.check("R1", ve, order == sorted(order) and -1 not in order, "check-order", "ebuild checksum first, then eclasses")
+    ctx.check("R1", ve, M.has(ve.node, f"$ed = {item}.get('_eclasses_')\n...\n$u = eclass_db.rebuild_cache_entry($ed)\nif $u is None:\n    return False\n{item}['_eclasses_'] = $u\nreturn True"), "stale-eclasses-reject", "a failed eclass rebuild rejects; a successful one replaces the recorded data by the live eclass objects")
+    ctx.check("R1", ve, M.has(ve.node, f"$ed = {item}.get('_eclasses_')\nif $ed is None:\n    return True"), "no-eclasses-accepts", "an entry recording no eclasses is accepted on the ebuild checksum alone")
+    ctx.check("R1", ve, M.has(ve.node, f"if $h is None or $_:\n    return False\n$ed = {item}.get('_eclasses_')\nif $ed is None:\n    return True\nif {item}.get('INHERIT') is None:\n    return False\n$u = eclass_db.rebuild_cache_entry($ed)"), "check-order", "ebuild checksum first, then eclasses")
     ctx.floor("R1", 6)
 
     # ---- R2 rebuild_cache_entry ------------------------------------------------------------------------------
@@ -51,32 +51,36 @@ def run(ctx):
         test = mism[0].test
         gens = [g for g in A.walk(test) if isinstance(g, ast.GeneratorExp)]
         anyc = isinstance(test, ast.Call) and dotted(test.func) == "any" or (isinstance(test, ast.BoolOp) and any(isinstance(v, ast.Call) and dotted(v.func) == "any" for v in test.values))
-        ctx.check("R2", rb, anyc and len(gens) == 1 and A.unparse(gens[0].generators[0].iter) == "chksums", "any-pair-mismatch", "the test is `any(pair mismatches)` over the recorded (kind, value) pairs")
+        ctx.check("R2", rb, anyc and len(gens) == 1 and isinstance(lp.target, ast.Tuple) and A.unparse(gens[0].generators[0].iter) == A.unparse(lp.target.elts[1]), "any-pair-mismatch", "the test is `any(pair mismatches)` over the recorded (kind, value) pairs")
         if gens:
             filt = gens[0].generators[0].ifs
             ctx.check("R2", rb, not filt, f"no-pair-filtered:{[A.unparse(f) for f in filt]}", "every recorded checksum kind takes part (eclass location included)",
                       f"the comparison skips pairs (`if {' and '.join(A.unparse(f) for f in filt)}`): that recorded fact is no longer part of validity — an eclass that now resolves to another location with unchanged mtime keeps stale metadata alive", node=gens[0])
-            ctx.check("R2", rb, A.unparse(gens[0].elt) == "val != getattr(data, chf, None)", "compares-live-attribute", "each recorded value is compared with the live eclass's attribute of that kind (a vanished eclass compares as None)")
-    last = rb.node.body[-1]
-    ctx.check("R2", rb, isinstance(last, ast.Return) and A.unparse(last.value) == "d", f"returns-full-map:{A.unparse(last.value) if isinstance(last, ast.Return) else ''}", "the rebuilt map is returned as is (an entry recording zero eclasses stays valid)",
-              f"rebuild_cache_entry ends with `return {A.unparse(last.value) if isinstance(last, ast.Return) else '?'}`", node=last)
-    ctx.check("R2", rb, "data = ec.get(eclass)" in A.unparse(lp) and "ec = self.eclasses" in A.unparse(rb.node), "live-view", "the comparison is against the live eclass view")
+            ctx.check("R2", rb, M.pat("$val != getattr($data, $chf, None)").matches(gens[0].elt) is not None and M.has(lp, "$data = $ec.get($e)"), "compares-live-attribute", "each recorded value is compared with the live eclass's attribute of that kind (a vanished eclass compares as None)")
+    last = A.returns(rb.node)[-1]
+    acc = M.one(rb.node, "$d = {}\nfor $e, $c in $_:\n    ...\n    $d[$e] = $data\nreturn $d")
+    ctx.check("R2", rb, acc is not None and isinstance(A.returns(rb.node)[-1].value, ast.Name), f"returns-full-map:{'ok' if acc else A.unparse(A.returns(rb.node)[-1].value)}", "the rebuilt map is returned as is (an entry recording zero eclasses stays valid)",
+              f"rebuild_cache_entry ends with `return {A.unparse(last.value)}`: the rebuilt map is not returned as is", node=last)
+    ctx.check("R2", rb, M.has(rb.node, "$ec = self.eclasses\n...\nfor $e, $c in $_:\n    $data = $ec.get($e)"), "live-view", "the comparison is against the live eclass view")
     ctx.floor("R2", 6)
 
     # ---- R3 _get_metadata ---------------------------------------------------------------------------------------
     gm = P.func(ES, "package_factory._get_metadata")
     g = CFG.cfg_of(gm.node)
-    rets = [r for r in A.returns(gm.node) if r.value is not None and A.unparse(r.value) == "data"]
-    ctx.require(len(rets) == 1, "_get_metadata: `return data` not found")
+    vg = M.one(gm.node, "$data = $cache[pkg.cpvstr]\nif $cache.validate_entry($data, $eh, self._ecache):\n    return $data")
+    ctx.require(vg is not None or len(A.returns(gm.node)) >= 2, "_get_metadata: cache lookup not found")
+    datav = vg["data"] if vg else None
+    rets = [r for r in A.returns(gm.node) if r.value is not None and isinstance(r.value, ast.Name) and (datav is None or r.value.id == datav)]
+    ctx.require(len(rets) >= 1, "_get_metadata: return of cached data not found")
     guard = next((p for p in A.parents(rets[0]) if isinstance(p, ast.If)), None)
-    ok = guard is not None and A.unparse(guard.test) == "cache.validate_entry(data, ebuild_hash, self._ecache)" and rets[0] in guard.body
+    ok = vg is not None and len(rets) == 1 and guard is not None and M.pat("$cache.validate_entry($data, $eh, self._ecache)").matches(guard.test) is not None and rets[0] in guard.body
     ctx.check("R3", gm, ok, "cached-only-if-validated", "cached data is returned only inside the true branch of validate_entry",
               "_get_metadata returns cached data on a path where validate_entry did not accept it", node=rets[0])
     t = A.unparse(gm.node)
-    ctx.check("R3", gm, "if not cache.readonly:\n                    del cache[pkg.cpvstr]" in t, "stale-entry-deleted", "a rejected entry is deleted from a writable cache")
-    ctx.check("R3", gm, A.unparse(gm.node.body[-1]) == "return self._update_metadata(pkg, ebp=ebp)", "fallthrough-regenerates", "without an accepted entry the metadata is regenerated from the ebuild")
-    ctx.check("R3", gm, "ebuild_hash = chksum.LazilyHashedPath(pkg.path)" in t, "current-ebuild-hash", "validation is against the ebuild file as it is now")
-    ctx.check("R3", gm, "if force_regen:\n        caches = ()" in t, "force-regen-skips-caches", "force_regen bypasses every cache")
+    ctx.check("R3", gm, M.has(gm.node, "if $cache.validate_entry($_, $_, $_):\n    return $_\nif not $cache.readonly:\n    del $cache[pkg.cpvstr]"), "stale-entry-deleted", "a rejected entry is deleted from a writable cache")
+    ctx.check("R3", gm, A.unparse(A.returns(gm.node)[-1].value) == "self._update_metadata(pkg, ebp=ebp)" and A.returns(gm.node)[-1] in gm.node.body, "fallthrough-regenerates", "without an accepted entry the metadata is regenerated from the ebuild")
+    ctx.check("R3", gm, M.has(gm.node, "$eh = chksum.LazilyHashedPath(pkg.path)\n...\nfor $cache in $_:\n    ...") and (vg is None or M.has(gm.node, "$eh = chksum.LazilyHashedPath(pkg.path)", {"eh": vg["eh"]})), "current-ebuild-hash", "validation is against the ebuild file as it is now")
+    ctx.check("R3", gm, M.has(gm.node, "$cs = self._cache\nif force_regen:\n    $cs = ()\n...\nfor $cache in $cs:\n    ..."), "force-regen-skips-caches", "force_regen bypasses every cache")
     ctx.floor("R3", 5)
 
     # ---- R4 checksum kinds -------------------------------------------------------------------------------------------
@@ -85,7 +89,7 @@ def run(ctx):
     ctx.check("R4", fh, A.try_literal(fh.assigns.get("eclass_chf_types")) == ("eclassdir", "mtime"), "flat-kinds", "flat format records each eclass's directory and mtime")
     ctx.check("R4", md, A.try_literal(md.assigns.get("eclass_chf_types")) == ("md5",) and A.try_literal(md.assigns.get("chf_type")) == "md5", "md5-kinds", "md5-cache records each eclass's md5 and the ebuild's md5")
     de = P.func(CM, "base._deserialize_eclass_chfs")
-    ctx.check("R4", de, "zip(self.eclass_chf_deserializers, data)" in A.unparse(de.node) and "yield (chf, convert(item))" in A.unparse(de.node), "pairs-are-kind-value", "recorded eclass data is a sequence of (kind, value) pairs — what rebuild_cache_entry compares")
+    ctx.check("R4", de, M.has(de.node, "$z = zip(self.eclass_chf_deserializers, data)\nfor (($chf, $conv), $item) in $z:\n    yield ($chf, $conv($item))"), "pairs-are-kind-value", "recorded eclass data is a sequence of (kind, value) pairs — what rebuild_cache_entry compares")
     ctx.floor("R4", 3)
 
 
